@@ -280,9 +280,7 @@ func (g *FnGen) processBlock(b *ssa.BasicBlock) {
 		// are carried as checked loop invariants
 		tiObjs := g.typeInvObjects()
 		for n, o := range tiObjs {
-			if t := g.typeInvTerm(o, g.st); t != "" {
-				g.oblige("invariant-entry", fmt.Sprintf("loop%d:auto-typeinv#%d", li.ordinal, n+1), and(guard, not("(= "+o.T+" nil)")), t, "type invariant of "+typeInvName(o.Go)+" holds on loop entry", b.Instrs[0].Pos())
-			}
+			g.obligeTypeInv("invariant-entry", fmt.Sprintf("loop%d:auto-typeinv#%d", li.ordinal, n+1), and(guard, not("(= "+o.T+" nil)")), o, g.st, "type invariant of "+typeInvName(o.Go)+" holds on loop entry", b.Instrs[0].Pos())
 		}
 		g.loopTypeInvObjs[b] = tiObjs
 		// 2. havoc
@@ -343,9 +341,7 @@ func (g *FnGen) processBlock(b *ssa.BasicBlock) {
 			g.assume(guard, ai.inv(g.vals[ai.phi].T), "auto-rangeindex")
 		}
 		for _, o := range tiObjs {
-			if t := g.typeInvTerm(o, g.st); t != "" {
-				g.assume(and(guard, not("(= "+o.T+" nil)")), t, "auto-typeinv")
-			}
+			g.assumeTypeInvAt(and(guard, not("(= "+o.T+" nil)")), o, g.st, "auto-typeinv")
 		}
 		g.autoInvs[b] = autoInv
 		g.assumeGlobals(guard)
@@ -399,9 +395,7 @@ func (g *FnGen) processBlock(b *ssa.BasicBlock) {
 			g.oblige("invariant-preserved", fmt.Sprintf("loop%d:auto-rangeindex", li.ordinal), eg, ai.inv(g.val(ai.phi.Edges[idx]).T), "range index stays below the length", token.NoPos)
 		}
 		for n, o := range g.loopTypeInvObjs[s] {
-			if t := g.typeInvTerm(o, g.st); t != "" {
-				g.oblige("invariant-preserved", fmt.Sprintf("loop%d:auto-typeinv#%d", li.ordinal, n+1), and(eg, not("(= "+o.T+" nil)")), t, "type invariant of "+typeInvName(o.Go)+" is preserved by the loop body", token.NoPos)
-			}
+			g.obligeTypeInv("invariant-preserved", fmt.Sprintf("loop%d:auto-typeinv#%d", li.ordinal, n+1), and(eg, not("(= "+o.T+" nil)")), o, g.st, "type invariant of "+typeInvName(o.Go)+" is preserved by the loop body", token.NoPos)
 		}
 		if spec == nil {
 			continue
@@ -832,6 +826,13 @@ func (g *FnGen) doMapUpdate(x *ssa.MapUpdate) {
 	h, vk, l := g.D.mapKeysT(mt.Key(), mt.Elem())
 	g.oblige("nil-map", g.siteNames[x], g.curGuard, not("(= "+m.T+" nil)"), "assignment to entry in nil map", x.Pos())
 	g.checkSharedWrite(x, m.T, "map "+typeName(x.Map.Type()), x.Pos())
+	// a map read from a field of an invariant-carrying struct belongs to that struct: updating it
+	// may break the struct's invariant, which is then re-checked like after a field write
+	if ld, ok := x.Map.(*ssa.UnOp); ok && ld.Op == token.MUL {
+		if fa, ok := ld.X.(*ssa.FieldAddr); ok {
+			g.noteInvWrite(fa, nil)
+		}
+	}
 	hasArr := g.D.get(g.st, h)
 	had := sel(sel(hasArr, m.T), k.T)
 	lenArr := g.D.get(g.st, l)
@@ -1349,7 +1350,8 @@ type autoInv struct {
 }
 
 // rangeIndexInvariants recognises the SSA shape of "for i, x := range slice":
-//   idx = phi [pre: -1, body: next]; next = idx + 1; if next < len(s) goto body else done
+//
+//	idx = phi [pre: -1, body: next]; next = idx + 1; if next < len(s) goto body else done
 func (g *FnGen) rangeIndexInvariants(h *ssa.BasicBlock) []autoInv {
 	var out []autoInv
 	for _, ins := range h.Instrs {
@@ -1385,7 +1387,7 @@ func (g *FnGen) rangeIndexInvariants(h *ssa.BasicBlock) []autoInv {
 		}
 		limT := g.val(lim).T
 		out = append(out, autoInv{phi: phi, inv: func(t string) string {
-			return and(fmt.Sprintf("(bvsle (bvneg (_ bv1 64)) %s)", t), fmt.Sprintf("(bvslt %s (bvadd %s (_ bv1 64)))", t, limT), fmt.Sprintf("(bvsle %s (_ bv%d 64))", limT, int64(1)<<56))
+			return and(fmt.Sprintf("(bvsle (bvneg (_ bv1 64)) %s)", t), or(fmt.Sprintf("(bvslt %s %s)", t, limT), fmt.Sprintf("(= %s (bvneg (_ bv1 64)))", t)), fmt.Sprintf("(bvsle %s (_ bv%d 64))", limT, int64(1)<<56))
 		}})
 	}
 	return out
@@ -1473,10 +1475,10 @@ func (g *FnGen) checkTypeInvsAtReturn(k int, rt retInfo) {
 		for _, a := range g.ownAllocs[tn] {
 			n++
 			v := Val{T: a.term, S: sortRef, Go: pt}
-			g.oblige("typeinv", fmt.Sprintf("%s:new#%d@ret%d", tn, n, k+1), and(rt.guard, a.guard), g.typeInvTerm(v, rt.st), "invariant of "+tn+" holds for the object allocated here", rt.pos)
+			g.obligeTypeInv("typeinv", fmt.Sprintf("%s:new#%d@ret%d", tn, n, k+1), and(rt.guard, a.guard), v, rt.st, "invariant of "+tn+" holds for the object allocated here", rt.pos)
 		}
 		for i, d := range g.dirty[tn] {
-			g.oblige("typeinv", fmt.Sprintf("%s:written#%d@ret%d", tn, i+1, k+1), and(rt.guard, d.guard, not("(= "+d.v.T+" nil)")), g.typeInvTerm(d.v, rt.st), "invariant of "+tn+" is re-established for the object written here", rt.pos)
+			g.obligeTypeInv("typeinv", fmt.Sprintf("%s:written#%d@ret%d", tn, i+1, k+1), and(rt.guard, d.guard, not("(= "+d.v.T+" nil)")), d.v, rt.st, "invariant of "+tn+" is re-established for the object written here", rt.pos)
 		}
 	}
 }
